@@ -3921,6 +3921,11 @@ class OptionalNode(ActionSinkNode):
         self.finish_actions = []
         self.next = None
 
+        # Actions a body hands up for whoever enters it (the start actions of a loop, for their first run) happen when the optional is entered
+        self.body_start_actions = []
+        if isinstance(sub_contents, LoopNode):
+            self.body_start_actions, _ = sub_contents.adopt_actions_from()
+
     def _set_next(self, next_node):
         self.next = next_node
 
@@ -3956,6 +3961,8 @@ class OptionalNode(ActionSinkNode):
         # Add starting actions
         for trans in sub_dfa.starting_state.transitions:
             trans.attach(*self.start_actions)
+            if not trans.error_handling:
+                trans.actions[0:0] = self.body_start_actions
 
         # If we need to, add a boring after thing
         if self.next is not None:
